@@ -660,6 +660,7 @@ dh_once(const uint8_t priv[32], const uint8_t * peer, uint8_t out[256], const st
 	ossl_failed = 0;
 	ossl_count_on = 1;
 	in_dh = 1;
+	memset(out, 0xC3, 256);		/* a result that is not written at all must not look like a value */
 	LIB_ENTER();
 	rc = peer ? crypto_dh_compute(peer, priv, out) : crypto_dh_generate_pub(out, priv);
 	LIB_LEAVE();
@@ -778,6 +779,20 @@ do_dh(const struct pline * l)
 		(void)dh_once(privA, peer, k3, l, &tpos, 1);
 		ossl_fail_at = -1;
 	}
+	/* 4. second use after a failure: a failed call may not poison the next one (same process, same objects) */
+	if (bo & 1) {
+		blind_override = 4;
+		(void)dh_once(privA, NULL, k3, l, NULL, 1);
+		blind_override = 0;
+	} else if (ofail >= 0) {
+		ossl_fail_at = ofail % 12;
+		(void)dh_once(privA, NULL, k3, l, &tpos, 1);
+		ossl_fail_at = -1;
+	}
+	rc = dh_once(privB, NULL, k3, l, &tpos, 0);
+	report_triple("P", privB, (const uint8_t *)"\x02", 1, k3, rc);
+	rc = dh_once(privB, peer, k3, l, &tpos, 0);
+	report_triple("K", privB, peer, 256, k3, rc);
 }
 
 static void
